@@ -143,29 +143,59 @@ theorem indexer_bins_nonempty (linear : Bool) (ms d : Nat) (calls : List Call) (
   have := (p1 r hr).bin b0 hb0
   simpa using this.2.1
 
-/-- the only refusal: a reference id smaller than the last one seen; everything else — `start > end`,
-unsorted coordinates, empty or backwards chunks, coordinates beyond the geometry — is accepted -/
+/-- the two refusals: a coordinate beyond the geometry's last position (since the fix of
+F-C17-beyond-geometry), or a reference id smaller than the last one seen; everything else — `start > end`,
+unsorted coordinates, empty or backwards chunks — is accepted -/
 theorem indexer_refuses_only_smaller_id (linear : Bool) (ms d : Nat) (st : St) (c : Call) :
     addRecord linear ms d st c = none ↔
+      ∃ rid s e m, c.ctx = some (rid, s, e, m) ∧ (beyond ms d s e = true ∨ rid + 1 < st.refs.length) := by
+  have core : addRecordCore linear ms d st c = none ↔
       ∃ rid s e m, c.ctx = some (rid, s, e, m) ∧ rid + 1 < st.refs.length := by
+    unfold addRecordCore
+    cases hctx : c.ctx with
+    | none => simp
+    | some t =>
+      obtain ⟨rid, s, e, m⟩ := t
+      simp only [Option.some.injEq, Prod.mk.injEq]
+      cases hrefs : st.refs with
+      | nil => simp [resizeWith]
+      | cons r rs =>
+        simp only [List.isEmpty_cons, Bool.false_eq_true, if_false, List.length_cons]
+        constructor
+        · intro h
+          split at h
+          · exact ⟨rid, s, e, m, ⟨rfl, rfl, rfl, rfl⟩, by omega⟩
+          · cases h
+        · rintro ⟨rid', s', e', m', ⟨rfl, rfl, rfl, rfl⟩, hlt⟩
+          have h' : rid < rs.length := by omega
+          simp [h']
   unfold addRecord
   cases hctx : c.ctx with
-  | none => simp
+  | none =>
+    rw [hctx] at core
+    simp only [core]
+    constructor
+    · rintro ⟨rid, s, e, m, h, _⟩; cases h
+    · rintro ⟨rid, s, e, m, h, _⟩; cases h
   | some t =>
     obtain ⟨rid, s, e, m⟩ := t
-    simp only [Option.some.injEq, Prod.mk.injEq]
-    cases hrefs : st.refs with
-    | nil => simp [resizeWith]
-    | cons r rs =>
-      simp only [List.isEmpty_cons, Bool.false_eq_true, if_false, List.length_cons]
+    rw [hctx] at core
+    show (if beyond ms d s e = true then none else addRecordCore linear ms d st c) = none ↔ _
+    by_cases hb : beyond ms d s e = true
+    · rw [if_pos hb]
+      exact ⟨fun _ => ⟨rid, s, e, m, rfl, Or.inl hb⟩, fun _ => rfl⟩
+    · rw [if_neg hb, core]
       constructor
-      · intro h
-        split at h
-        · exact ⟨rid, s, e, m, ⟨rfl, rfl, rfl, rfl⟩, by omega⟩
-        · cases h
-      · rintro ⟨rid', s', e', m', ⟨rfl, rfl, rfl, rfl⟩, hlt⟩
-        have h' : rid < rs.length := by omega
-        simp [h']
+      · rintro ⟨rid', s', e', m', h, hlt⟩
+        exact ⟨rid', s', e', m', h, Or.inr hlt⟩
+      · rintro ⟨rid', s', e', m', h, hor⟩
+        refine ⟨rid', s', e', m', h, ?_⟩
+        cases hor with
+        | inr hlt => exact hlt
+        | inl hbe =>
+          simp only [Option.some.injEq, Prod.mk.injEq] at h
+          obtain ⟨-, rfl, rfl, -⟩ := h
+          exact absurd hbe hb
 
 /-! ## the corollaries: no WF hypothesis left -/
 
@@ -245,16 +275,27 @@ example : run true 14 5 St.init [⟨some (1, 5, 9, true), ⟨0, 1⟩⟩, ⟨some
 
 `add_record` does not look at the coordinates; `reg2bin` neither clamps nor fails: beyond
 `2^(min_shift+3·depth)` it returns `t + (beg >> s)` past the last level's range. At 14/5 a record at
-`2^29 + 16385` is ACCEPTED and lands in "bin" 37450 — the id of the metadata pseudo-bin, which the
+`2^29 + 16385` was ACCEPTED (before the fix; `addRecordCore` is the code without the range test) and lands in "bin" 37450 — the id of the metadata pseudo-bin, which the
 built index then holds twice (once as a bin, once as `metadata`), so `Bai.WF` fails and the file
 written from it is not read back as the same index (replayed on the real code: `c17 reach` corpus). -/
 theorem wf_no_meta_bin (ix : Bai) (h : ix.WF) : ∀ r ∈ ix.refs, ∀ b ∈ r.bins, b.1 ≠ metaIdLinear :=
   fun r hr b hb => ((h.2.1 r hr).1.2 b hb).2.1
 
 theorem indexer_beyond_geometry_collides :
-    ∃ st, run true 14 5 St.init [⟨some (0, 2^29 + 16385, 2^29 + 16385, true), ⟨0, 1⟩⟩] = some st ∧
+    ∃ st, addRecordCore true 14 5 St.init ⟨some (0, 2^29 + 16385, 2^29 + 16385, true), ⟨0, 1⟩⟩ = some st ∧
       ((buildBai st 1).refs.map fun r => r.bins.map (·.1)) = [[metaIdLinear]] ∧
       ¬ (buildBai st 1).WF := by
   refine ⟨_, rfl, by decide, fun h => absurd (wf_no_meta_bin _ h) (by decide)⟩
+
+/-- … and `add_record` now refuses it (fix in /repo: the range test `beyond`): the first position
+without a bin, `2^29`, and the one that collided with the pseudo-bin are refused, the last position of
+the geometry, `2^29 - 1`, is accepted; at a shift of 64 or more nothing is refused -/
+theorem indexer_beyond_geometry_refused :
+    run true 14 5 St.init [⟨some (0, 2^29 + 16385, 2^29 + 16385, true), ⟨0, 1⟩⟩] = none ∧
+    run true 14 5 St.init [⟨some (0, 2^29, 2^29, true), ⟨0, 1⟩⟩] = none ∧
+    run true 14 5 St.init [⟨some (0, 1, 2^29, true), ⟨0, 1⟩⟩] = none ∧
+    (run true 14 5 St.init [⟨some (0, 2^29 - 1, 2^29 - 1, true), ⟨0, 1⟩⟩]).isSome = true ∧
+    beyond 40 8 (2^64) (2^64) = false := by
+  decide
 
 end Noodles.Props.C17
